@@ -17,6 +17,7 @@ verus! {
 //@map std::error::Error => VStdError
 //@map anyhow::Error => anyhow::Error
 //@mapcall parse => &*str_parse
+//@mapcall into => vx_into
 //@rename server/src/topic/reqrep.rs :: Result => SResult
 //@rename server/src/sink/router.rs :: Result => AResult
 
@@ -275,5 +276,122 @@ pub open spec fn delivered<K, V: VSink<Frame>>(fin: Map<K, V>, old: Map<K, V>, k
 //@hint before "let payload = match frame"
     proof { broadcast use str_key_view; }
 //@end
+// ------------------------------------------------------------------------------------------
+// reqrep::Topic
+// ------------------------------------------------------------------------------------------
+//@consts server/src/topic/reqrep.rs
+//@type server/src/topic/reqrep.rs :: BoxedBiStream
+//@type server/src/topic/reqrep.rs :: Socket
+//@type server/src/topic/reqrep.rs :: Topic
+
+impl<E> mpsc::Carried for Socket<E> {
+    open spec fn carried_budget(&self) -> nat { match self { Socket::Client(p) => p.1.budget(), Socket::Server(p) => p.1.budget() } }
+    // a peer's history starts when it is handed to the router; a replier's stream registers its waker under SRC_SERVER
+    open spec fn fresh(&self) -> bool {
+        match self {
+            Socket::Client(p) => p.0.sent() =~= Seq::<Frame>::empty() && p.0.flushed() == 0,
+            Socket::Server(p) => p.0.sent() =~= Seq::<Frame>::empty() && p.0.flushed() == 0 && p.1.src_id() == SRC_SERVER(),
+        }
+    }
+    open spec fn coop(&self) -> bool { match self { Socket::Client(p) => p.0.cooperative(), Socket::Server(p) => p.0.cooperative() } }
+}
+
+impl<E> Topic<E> {
+    // everything that is available to this step without waiting (C09: the work of one step is bounded by it)
+    pub open spec fn budget(&self) -> nat {
+        self.handle.budget() + self.stream.budget() + (if self.server is Some { self.server->Some_0.1.budget() } else { 0 })
+    }
+    // occupied one-slot buffers whose emptying is pure progress
+    pub open spec fn aux(&self) -> nat {
+        (if self.buffered_err is Some { if self.buffered_err->Some_0.0 is Some { 2nat } else { 1nat } } else { 0nat })
+        + (if self.buffered_rep is Some { 1nat } else { 0nat })
+        + (if self.buffered_req is Some && self.server is Some { 1nat } else { 0nat })
+        + (if self.server is Some { 1nat } else { 0nat })      // unbinding a replier is progress too
+    }
+    pub open spec fn inv(&self) -> bool {
+        &&& self.next_id + self.handle.budget() < usize::MAX        // fewer than 2^64 registrations per topic (stated assumption)
+        &&& (self.server is Some ==> self.server->Some_0.1.src_id() == SRC_SERVER())
+    }
+    pub open spec fn all_coop(&self) -> bool {
+        &&& all_coop_m(self.sink.view())
+        &&& (self.server is Some ==> self.server->Some_0.0.cooperative())
+        &&& (self.buffered_err is Some ==> self.buffered_err->Some_0.1.cooperative())
+    }
+    // blocked on a peer that holds our waker
+    pub open spec fn blocked(&self, cx: Context) -> bool {
+        ||| some_blocked_m(self.sink.view(), cx)
+        ||| (self.server is Some && cx.armed_sinks().contains(self.server->Some_0.0.id()) && !self.server->Some_0.0.cooperative())
+        ||| (self.buffered_err is Some && cx.armed_sinks().contains(self.buffered_err->Some_0.1.id()) && !self.buffered_err->Some_0.1.cooperative())
+    }
+    // nothing left to do, and every source that can bring new work holds our waker
+    pub open spec fn idle_armed(&self, cx: Context) -> bool {
+        &&& self.buffered_rep is None && self.buffered_err is None && (self.buffered_req is None || self.server is None)
+        &&& all_flushed_m(self.sink.view())
+        &&& (self.server is Some ==> self.server->Some_0.0.flushed() == self.server->Some_0.0.sent().len())
+        &&& cx.armed_src().contains(SRC_HANDLE())
+        &&& (self.stream.empty() || cx.armed_src().contains(SRC_STREAMS()))
+        &&& (self.server is None || cx.armed_src().contains(SRC_SERVER()))
+    }
+}
+
+//@fn server/src/topic/reqrep.rs :: Topic :: pair [props=C16]
+    ensures r.0.inv(), r.0.server is None, r.0.buffered_req is None, r.0.buffered_rep is None, r.0.buffered_err is None,
+//@end
+
+pub open spec fn opt_seq<T>(o: Option<T>) -> Seq<T> { match o { Some(x) => seq![x], None => Seq::empty() } }
+// the request as the replier must see it: origin tag forced to the id of the stream it arrived on, rest intact
+pub open spec fn tagged(orig: MessagePayload, id: usize, out: MessagePayload) -> bool {
+    out.message == orig.message && out.headers is Some
+    && out.headers->Some_0.view() == (match orig.headers { Some(h) => h.view(), None => Map::<String, String>::empty() }).insert(cid_key(), out.headers->Some_0.view()[cid_key()])
+    && out.headers->Some_0.view()[cid_key()]@ == dec(id)
+}
+
+//@fn protocol/src/frame.rs :: Frame :: unwrap_message [props=C11]
+    requires self is Message,                                                                                           // [C11.unwrap_message_needs_message]
+    ensures self == Frame::Message(r),
+//@end
+
+//@fn server/src/topic/reqrep.rs :: Future for Topic :: poll [props=C02 C08 C09 C10 C11 C16] [slots=buffered_rep:C02.reply_not_overwritten buffered_err:C10.rejection_not_overwritten server:C10.bound_replier_not_replaced]
+    requires
+        old(self).inv(),
+    ensures
+        final(self).inv(),
+        // no lost wake-up
+        r is Pending ==> final(self).blocked(*final(cx)) || final(self).idle_armed(*final(cx)),                            // [C09.pending_has_armed_waker]
+        // the router only finishes after the registration channel was closed, with every requestor's replies flushed
+        r is Ready ==> old(self).handle.closed() && all_flushed_m(final(self).sink.view()),                               // [C16.finishes_only_flushed]
+        // shutdown cannot hang
+        old(self).handle.closed() && old(self).handle.coop() && old(self).all_coop() ==> r is Ready,                       // [C16.closed_and_cooperative_finishes]
+//@loop 1
+        invariant
+            self.inv(), old(self).inv(),
+            self.next_id + self.budget() <= old(self).next_id + old(self).budget(),
+            self.handle.closed() == old(self).handle.closed(), self.handle.coop() == old(self).handle.coop(),
+            old(self).handle.coop() && old(self).all_coop() ==> self.all_coop(),
+            // every reply taken from the replier is handed to the requestors' router exactly once, in order (ghost ledger)
+            g_rep_in =~= g_rep_out + opt_seq(self.buffered_rep),                                                         // [C02.reply_handed_over_exactly_once]
+        decreases self.budget(), self.aux()
+//@hint before "=loop"
+    let ghost mut g_rep_in: Seq<Frame> = opt_seq(self.buffered_rep);
+    let ghost mut g_rep_out: Seq<Frame> = Seq::empty();
+//@hint arm "Poll::Ready(Some(Ok(item))) =>"
+                    proof { g_rep_in = g_rep_in.push(item); }
+//@hint before "let r = self.sink.start_send("
+            proof { g_rep_out = g_rep_out.push(self.buffered_rep->Some_0); }
+//@hint arm "Frame::Message(mut payload) =>"
+                    let ghost p0 = payload;
+//@hint before "self.buffered_req = Some(Frame::Message(payload));"
+                    proof {
+                        broadcast use str_key_view, str_into_string_view, string_ext;
+                        reveal_strlit("cid");
+                        // the request is stored with the origin tag of the stream it arrived on, whatever the requestor put there
+                        assert(tagged(p0, id, payload));                                                                 // [C02.origin_tag_unforgeable]
+                        // a request waiting for a bound replier is never overwritten
+                        assert(self.buffered_req is None || self.server is None);                                        // [C02.request_not_dropped_while_bound]
+                    }
+//@hint before "self.buffered_err = Some((Some(error_payload), si));"
+                            proof { assert(error_payload.code == 5); }                                                   // [C10.rejected_with_replier_already_bound]
+//@end
+
 } // verus!
 fn main() {}
